@@ -413,6 +413,25 @@ Definition stop_reported (n : node) (old : nat) : node :=
   let errs := p_errors (n_pool n) in
   fold_right (fun p m => stop_peer m p) n (firstn (length errs - old) errs).
 
+(* poolRoutine, case <-didProcessCh, the branch taken when the commit check or ValidateBlock
+   returned an error: RedoRequest(first.Height), stop that peer, RedoRequest(second.Height),
+   stop that peer if it is another one *)
+Definition reject_step (n : node) (v : sverdict) (first second : block) : node :=
+  match redo_request (n_pool n) (b_height first) with
+  | None => panic n
+  | Some (pl1, p1) =>
+    let n1 := stop_peer (with_pool n pl1) p1 in
+    match redo_request (n_pool n1) (b_height second) with
+    | None => panic n1
+    | Some (pl2, p2) =>
+      let n2 := with_pool n1 pl2 in
+      let n3 := if p2 =? p1 then n2 else stop_peer n2 p2 in
+      {| n_state := n_state n3; n_store := n_store n3; n_pool := n_pool n3;
+         n_stopped := n_stopped n3;
+         n_log := E_rejected v first second p1 p2 :: n_log n3; n_panicked := n_panicked n3 |}
+    end
+  end.
+
 (* poolRoutine, case <-didProcessCh *)
 Definition process_step (vc : vcheck) (n : node) : node :=
   match peek_two (n_pool n) with
@@ -434,21 +453,7 @@ Definition process_step (vc : vcheck) (n : node) : node :=
              n_log := E_saved (n_state n) first second :: n_log n; n_panicked := n_panicked n |}
         end
       end
-    | v =>
-      match redo_request (n_pool n) (b_height first) with
-      | None => panic n
-      | Some (pl1, p1) =>
-        let n1 := stop_peer (with_pool n pl1) p1 in
-        match redo_request (n_pool n1) (b_height second) with
-        | None => panic n1
-        | Some (pl2, p2) =>
-          let n2 := with_pool n1 pl2 in
-          let n3 := if p2 =? p1 then n2 else stop_peer n2 p2 in
-          {| n_state := n_state n3; n_store := n_store n3; n_pool := n_pool n3;
-             n_stopped := n_stopped n3;
-             n_log := E_rejected v first second p1 p2 :: n_log n3; n_panicked := n_panicked n3 |}
-        end
-      end
+    | v => reject_step n v first second
     end
   | _ => n
   end.
@@ -496,3 +501,23 @@ Definition handover (n : node) : bool :=
 
 End Sync.
 
+
+Arguments b_height {sig}. Arguments b_id {sig}. Arguments b_last_commit {sig}. Arguments b_tag {sig}.
+Arguments se_height {sig}. Arguments se_id {sig}. Arguments se_seen {sig}.
+Arguments rq_peer {sig}. Arguments rq_block {sig}.
+Arguments p_height {sig}. Arguments p_reqs {sig}. Arguments p_peers {sig}.
+Arguments p_max_peer_height {sig}. Arguments p_num_pending {sig}. Arguments p_errors {sig}.
+Arguments n_state {sig}. Arguments n_store {sig}. Arguments n_pool {sig}. Arguments n_stopped {sig}.
+Arguments n_log {sig}. Arguments n_panicked {sig}.
+Arguments E_saved {sig}. Arguments E_rejected {sig}.
+Arguments OStatus {sig}. Arguments OMakeRequester {sig}. Arguments OPick {sig}. Arguments OBlock {sig}.
+Arguments ORemovePeer {sig}. Arguments OProcess {sig}.
+Arguments add_vote {sig}. Arguments ctv_loop {sig}. Arguments commit_to_voteset {sig}.
+Arguments reconstruct_last_commit {sig}. Arguments save_block {sig}. Arguments load_seen {sig}.
+Arguments verify_first {sig}. Arguments req_at {sig}. Arguments with_reqs {sig}. Arguments report {sig}.
+Arguments set_peer_range {sig}. Arguments redo_req {sig}. Arguments redo_pending {sig}.
+Arguments remove_peer {sig}. Arguments make_next_requester {sig}. Arguments assign {sig}.
+Arguments add_block {sig}. Arguments block_at {sig}. Arguments peek_two {sig}. Arguments pop_request {sig}.
+Arguments redo_request {sig}. Arguments is_caught_up {sig}. Arguments is_stopped {sig}.
+Arguments stop_peer {sig}. Arguments with_pool {sig}. Arguments panic {sig}. Arguments stop_reported {sig}.
+Arguments process_step {sig}. Arguments reject_step {sig}. Arguments next_state {sig}. Arguments step {sig}. Arguments run {sig}. Arguments handover {sig}.
